@@ -169,6 +169,8 @@ type CqlClientConnection struct {
 	ctx                context.Context
 	cancel             context.CancelFunc
 	payloadAccumulator *payloadAccumulator
+	// channelsLock guards the closing of the outgoing and events channels against concurrent (non-blocking) sends
+	channelsLock sync.RWMutex
 }
 
 func newCqlClientConnection(
@@ -431,12 +433,16 @@ func (c *CqlClientConnection) processIncomingFrame(incoming *frame.Frame) (abort
 		for _, handler := range c.handlers {
 			handler(incoming, c)
 		}
-		select {
-		case c.events <- incoming:
-			log.Debug().Msgf("%v: incoming event frame successfully delivered: %v", c, incoming)
-		default:
-			log.Error().Msgf("%v: events queue is full, discarding event frame: %v", c, incoming)
+		c.channelsLock.RLock()
+		if !c.IsClosed() {
+			select {
+			case c.events <- incoming:
+				log.Debug().Msgf("%v: incoming event frame successfully delivered: %v", c, incoming)
+			default:
+				log.Error().Msgf("%v: events queue is full, discarding event frame: %v", c, incoming)
+			}
 		}
+		c.channelsLock.RUnlock()
 	} else {
 		if err := c.inFlightHandler.onIncomingFrameReceived(incoming); err != nil {
 			log.Error().Err(err).Msgf("%v: incoming frame delivery failed: %v", c, incoming)
@@ -515,6 +521,8 @@ func (c *CqlClientConnection) Send(f *frame.Frame) (InFlightRequest, error) {
 	if f == nil {
 		return nil, fmt.Errorf("%v: frame cannot be nil", c)
 	}
+	c.channelsLock.RLock()
+	defer c.channelsLock.RUnlock()
 	if c.IsClosed() {
 		return nil, fmt.Errorf("%v: connection closed", c)
 	}
@@ -603,12 +611,13 @@ func (c *CqlClientConnection) Close() (err error) {
 		log.Debug().Msgf("%v: closing", c)
 		c.cancel()
 		err = c.conn.Close()
+		c.channelsLock.Lock()
 		outgoing := c.outgoing
 		events := c.events
-		c.outgoing = nil
 		c.events = nil
 		close(outgoing)
 		close(events)
+		c.channelsLock.Unlock()
 		c.inFlightHandler.close()
 		c.waitGroup.Wait()
 		if err != nil {
